@@ -93,18 +93,26 @@ MomPoly(C, e) ==
 
 \* the mesh is what its class claims (a wrong claim is an error of the machinery, never of FEAT)
 Bit(k, d) == (k \div PowA(2, d - 1)) % 2
+Det3(a, b, c) == a[1] * (b[2] * c[3] - b[3] * c[2]) - a[2] * (b[1] * c[3] - b[3] * c[1]) + a[3] * (b[1] * c[2] - b[2] * c[1])
+Diff(p, q) == [d \in 1..Len(p) |-> p[d] - q[d]]
+\* an axis-parallel box in ANY admissible local numbering: the cell is the affine image of the reference cube (vertex k =
+\* corner with the bits of k), every edge vector along exactly one axis, positive orientation
+EdgeVec(P, d) == Diff(P[1 + PowA(2, d - 1)], P[1])
+DetEdges(P, dim) ==
+  IF dim = 2 THEN EdgeVec(P, 1)[1] * EdgeVec(P, 2)[2] - EdgeVec(P, 1)[2] * EdgeVec(P, 2)[1]
+  ELSE Det3(EdgeVec(P, 1), EdgeVec(P, 2), EdgeVec(P, 3))
 IsBoxCell(C, c) ==
-  LET P == CellPts(C, c)  lo == P[1]  hi == P[Len(P)] IN
-  /\ \A d \in 1..C.dim : lo[d] < hi[d]
-  /\ \A k \in 1..Len(P) : \A d \in 1..C.dim : P[k][d] = IF Bit(k - 1, d) = 1 THEN hi[d] ELSE lo[d]
-BoxVol(C, c) == LET P == CellPts(C, c) IN ProdA([d \in 1..C.dim |-> P[Len(P)][d] - P[1][d]])
+  LET P == CellPts(C, c) IN
+  /\ \A k \in 1..Len(P) : \A x \in 1..C.dim :
+        P[k][x] = P[1][x] + SumA([d \in 1..C.dim |-> Bit(k - 1, d) * EdgeVec(P, d)[x]])
+  /\ \A d \in 1..C.dim : Cardinality({x \in 1..C.dim : EdgeVec(P, d)[x] # 0}) = 1
+  /\ DetEdges(P, C.dim) > 0
+BoxVol(C, c) == DetEdges(CellPts(C, c), C.dim)
 QuadAffine(P) == \A d \in 1..2 : P[1][d] + P[4][d] = P[2][d] + P[3][d]
 Convex2D(C, c) ==
   LET P == CellPts(C, c) IN
   IF C.shape = "simplex" THEN TriD(P[1], P[2], P[3]) > 0
   ELSE TriD(P[1], P[2], P[4]) > 0 /\ TriD(P[1], P[4], P[3]) > 0 /\ TriD(P[1], P[2], P[3]) > 0 /\ TriD(P[2], P[4], P[3]) > 0
-Det3(a, b, c) == a[1] * (b[2] * c[3] - b[3] * c[2]) - a[2] * (b[1] * c[3] - b[3] * c[1]) + a[3] * (b[1] * c[2] - b[2] * c[1])
-Diff(p, q) == [d \in 1..Len(p) |-> p[d] - q[d]]
 \* dim! * volume of a cell (simplices; hypercubes only as axis-parallel boxes, where it is dim! * BoxVol)
 CellVolF(C, c) ==
   LET P == CellPts(C, c) IN
